@@ -59,6 +59,7 @@ def run(ctx, R, tier):
     init_sites(F, R)
     inflight(F, R)
     dt_rule(F, R)
+    dt_handed_on(F, R)
     shared_rate_single(F, R)
     rate_bounds(F, R)
     cursors(F, R)
@@ -236,6 +237,40 @@ def pretty_rv(b, rv):
     return describe_rv(b, rv)
 
 
+def dt_handed_on(F, R, rule='B.C16.dt'):
+    """'Sounds keep their pitch and duration, clocks and tweens keep their real-time speed': the per-frame time step reaches
+    every sound, effect and track unchanged - wherever a mixing function calls `process` of a child (a sub-track, a send
+    track, the main track, a sound, an effect) the `dt` it hands on is its own `dt` parameter (Renderer: its `dt` field), not
+    the duration of the chunk or any other product."""
+    targets = ('track::sub::Track::process', 'track::main::MainTrack::process', 'track::send::SendTrack::process',
+               'backend::resources::mixer::Mixer::process', 'sound::Sound::process', 'effect::Effect::process')
+    n = 0
+    for b in F.bodies:
+        if b.krate != 'kira' or not (b.path.startswith(('track::', 'backend::')) or b.path.startswith('<effect::delay::Delay')):
+            continue
+        own = [nm for l, nm in b.names.items() if 1 <= l <= b.arg_count and nm == 'dt']
+        for bb, t in b.calls():
+            cp = callee_path(t) or ''
+            if cp not in targets:
+                continue
+            # which argument is the step: the first f64 argument
+            di = None
+            for i, a in enumerate(t['args']):
+                ty = (a.get('ty') or (a.get('pl') or {}).get('ty') or '')
+                if ty == 'f64':
+                    di = i
+                    break
+            if di is None:
+                continue
+            n += 1
+            d = describe(b, t['args'][di], depth=5, at=bb)
+            good = (own and d == 'dt') or d == '(*self).dt'
+            R.check(good, rule, 'handed-on:%s->%s' % (b.path.split('::{closure')[0].lstrip('<').split(' as ')[0].split('::')[-2] if '::' in b.path else b.path, cp.split('::')[-2]),
+                    '%s hands %s to %s as the per-frame time step, not its own dt: everything below runs at another speed' % (b.path, d[:60], cp),
+                    detail={'dt': d[:60]}, where=b.where(bb), nontrivial=False)
+    R.floor(rule, n, 9)
+
+
 def cover(F, R):
     holders = effect_holders(F)
     R.extra['effect_holders'] = {k: v for k, v in sorted(holders.items())}
@@ -267,13 +302,20 @@ def cover(F, R):
                 # in was built from that field, or the call's receiver is the field itself
                 from .c02 import iter_source, loop_of
                 served = set()
+                ftys = {fd['name']: fd['ty'] for fd in F.adts[adt]['variants'][0]['fields']}
                 for x in fwd:
                     t = b.blocks[x]['term']
                     srcs = [describe(b, t['args'][0], depth=10, at=x)] if t['args'] else []
                     L = loop_of(b, x)
                     if L is not None:
                         srcs.append(iter_source(b, L))
+                    cpx = callee_path(t) or ''
                     for f in fields:
+                        # a field whose items are themselves holders (the sub-tracks of a track) is served by the holder's own
+                        # method - which fans out in turn, to any depth - not by reaching into the items' effects from here
+                        inner = [h for h in holders if h in ftys.get(f, '')]
+                        if inner and not any(cpx.startswith(h + '::') for h in holders):
+                            continue
                         if any(('.' + f) in sdesc for sdesc in srcs):
                             served.add(f)
                 unserved = [f for f in fields if f not in served]
